@@ -553,3 +553,112 @@ Proof.
   - apply tiles_data. rewrite Hd. apply iter_base_tiles; [exists r, cs; split; [reflexivity|exact Hc]|exact Hl].
   - rewrite Hd, <- Hl. apply iter_base_chunks; [lia|exact Hc].
 Qed.
+
+(* ================= completeness of the get_excerpts checker ================= *)
+(* The greedy run decomposition never needs more runs than any decomposition into excerpts: whatever
+   the length of the run it is in, it needs at most one run more than from any other state, and
+   not more when its current run is the shorter one. *)
+Section GetExcComplete.
+Variable n size : Z.
+Hypothesis Hn : 0 <= n.
+Hypothesis Hsize : 1 <= size.
+Let iota := zrange 0 (Z.to_nat n).
+
+Lemma ge_count_cmp : forall l prev a b cb, 1 <= a -> 1 <= b ->
+  ge_count size prev b l = Some cb ->
+  exists ca, ge_count size prev a l = Some ca /\ ca <= cb + 1 /\ (a <= b -> ca <= cb).
+Proof.
+  induction l as [|x r IH]; intros prev a b cb Ha Hb H; cbn [ge_count] in *.
+  - injection H as <-. exists 0. repeat split; lia.
+  - destruct (x =? prev + 1) eqn:Ex; cbn [andb] in *.
+    + replace (prev <? x) with true in * by lia.
+      destruct (b <? size) eqn:Eb.
+      * destruct (a <? size) eqn:Ea.
+        -- destruct (IH x (a + 1) (b + 1) cb ltac:(lia) ltac:(lia) H) as (ca & -> & H1 & H2).
+           exists ca. repeat split; [lia|]. intros. apply H2. lia.
+        -- destruct (IH x 1 (b + 1) cb ltac:(lia) ltac:(lia) H) as (c1 & -> & H1 & H2).
+           exists (1 + c1). unfold option_map. repeat split; lia.
+      * destruct (ge_count size x 1 r) as [c1|] eqn:E1; [|discriminate]. unfold option_map in H.
+        assert (cb = 1 + c1) by congruence. subst cb. clear H.
+        destruct (a <? size) eqn:Ea.
+        -- destruct (IH x (a + 1) 1 c1 ltac:(lia) ltac:(lia) E1) as (ca & -> & H1 & H2).
+           exists ca. repeat split; lia.
+        -- exists (1 + c1). unfold option_map. repeat split; lia.
+    + destruct (prev <? x); [|discriminate]. exists cb. repeat split; [exact H|lia|lia].
+Qed.
+
+Lemma ge_count_run : forall m prev cur R, cur + Z.of_nat m <= size ->
+  ge_count size prev cur (zrange (prev + 1) m ++ R) = ge_count size (prev + Z.of_nat m) (cur + Z.of_nat m) R.
+Proof.
+  induction m as [|m IH]; intros prev cur R H; cbn [zrange app].
+  - f_equal; lia.
+  - cbn [ge_count]. rewrite Z.eqb_refl. replace (cur <? size) with true by lia. cbn [andb].
+    rewrite IH by lia. f_equal; lia.
+Qed.
+
+Lemma ge_count_start prev cur a rest c1 : 1 <= cur -> prev < a ->
+  ge_count size a 1 rest = Some c1 ->
+  exists c0, ge_count size prev cur (a :: rest) = Some c0 /\ c0 <= 1 + c1.
+Proof.
+  intros Hc Hp H. cbn [ge_count]. destruct ((a =? prev + 1) && (cur <? size)).
+  - destruct (ge_count_cmp rest a (cur + 1) 1 c1 ltac:(lia) ltac:(lia) H) as (ca & -> & H1 & _).
+    exists ca. split; [reflexivity|lia].
+  - replace (prev <? a) with true by lia. rewrite H. exists (1 + c1). split; [reflexivity|lia].
+Qed.
+
+Lemma ge_count_complete : forall l prev cur p, 1 <= cur -> prev < p -> 0 <= p -> excP n size p l ->
+  exists c, ge_count size prev cur (concat (map (iv_slice iota) l)) = Some c /\ c <= zlen l.
+Proof.
+  induction l as [|i l IH]; intros prev cur p Hc Hp Hp0 H.
+  - exists 0. split; [reflexivity|unfold zlen; cbn [length]; lia].
+  - cbn [excP] in H. destruct H as (H1 & H2 & H3 & H4 & H5). cbn [map concat].
+    replace (iv_slice iota i) with (zrange (lo i) (Z.to_nat (hi i - lo i))).
+    2:{ symmetry. destruct i as [a b]. cbn [lo hi] in *. unfold iota. apply iv_slice_iota; lia. }
+    destruct (Z.eq_dec (hi i) (lo i)) as [E|E].
+    + replace (Z.to_nat (hi i - lo i)) with O by lia. cbn [zrange app].
+      destruct (IH prev cur (hi i) Hc ltac:(lia) ltac:(lia) H5) as (c & -> & Hle).
+      exists c. split; [reflexivity|]. unfold zlen in *. cbn [length]. lia.
+    + replace (Z.to_nat (hi i - lo i)) with (S (Z.to_nat (hi i - lo i - 1))) by lia. cbn [zrange app].
+      destruct (IH (hi i - 1) (hi i - lo i) (hi i) ltac:(lia) ltac:(lia) ltac:(lia) H5) as (c' & Hc' & Hle).
+      assert (Hrun : ge_count size (lo i) 1 (zrange (lo i + 1) (Z.to_nat (hi i - lo i - 1)) ++
+                                              concat (map (iv_slice iota) l)) = Some c').
+      { rewrite ge_count_run by lia. rewrite <- Hc'. f_equal; lia. }
+      destruct (ge_count_start prev cur (lo i) _ c' Hc ltac:(lia) Hrun) as (c0 & -> & Hc0).
+      exists c0. split; [reflexivity|]. unfold zlen in *. cbn [length]. lia.
+Qed.
+
+Lemma in_slice_iota x a b : In x (slice iota a b) -> 0 <= x < n.
+Proof.
+  unfold slice. intros H.
+  assert (H' : In x (skipn (Z.to_nat a) iota)).
+  { rewrite <- (firstn_skipn (Z.to_nat b - Z.to_nat a) (skipn (Z.to_nat a) iota)). apply in_or_app. now left. }
+  assert (H'' : In x iota).
+  { rewrite <- (firstn_skipn (Z.to_nat a) iota). apply in_or_app. now right. }
+  unfold iota in H''. apply zrange_ge in H''. lia.
+Qed.
+
+Theorem getexc_b_complete k out : 0 <= k -> GetExc_Spec iota k size out -> getexc_b n k size out = true.
+Proof.
+  intros Hk. unfold getexc_b, GetExc_Spec.
+  assert (Hz : zlen iota = n) by (unfold iota; rewrite zlen_zrange; lia). rewrite Hz.
+  destruct (n <? k * size); [now rewrite zlist_eqb_eq|].
+  intros (l & [HP Hlen] & ->). rewrite andb_true_iff, forallb_forall. split.
+  - intros x Hx. apply in_concat in Hx. destruct Hx as (blk & Hb & Hx).
+    apply in_map_iff in Hb. destruct Hb as (i & <- & _). apply in_slice_iota in Hx. lia.
+  - destruct (ge_count_complete l (-2) 1 0 ltac:(lia) ltac:(lia) ltac:(lia) HP) as (c & Hc & Hle).
+    destruct (concat (map (iv_slice iota) l)) as [|x r] eqn:E; [reflexivity|].
+    assert (Hx : 0 <= x).
+    { assert (Hin : In x (concat (map (iv_slice iota) l))) by (rewrite E; now left).
+      apply in_concat in Hin. destruct Hin as (blk & Hb & Hx).
+      apply in_map_iff in Hb. destruct Hb as (i & <- & _). apply in_slice_iota in Hx. lia. }
+    cbn [ge_count] in Hc. replace (x =? -2 + 1) with false in Hc by lia. cbn [andb] in Hc.
+    replace (-2 <? x) with true in Hc by lia.
+    destruct (ge_count size x 1 r) as [c1|]; [|discriminate]. unfold option_map in Hc.
+    assert (c = 1 + c1) by congruence. lia.
+Qed.
+
+Theorem getexc_b_iff k out : 0 <= k -> (getexc_b n k size out = true <-> GetExc_Spec iota k size out).
+Proof.
+  intros Hk. split; [apply (getexc_b_sound n size Hn Hsize k out Hk)|now apply getexc_b_complete].
+Qed.
+End GetExcComplete.
